@@ -150,3 +150,18 @@ func (t *Torrent) VerifFinish() {
 func (t *Torrent) VerifRequest(p *peer.Peer, indices []uint32) error {
 	return request(t, p, indices)
 }
+
+// VerifNewRequested returns an empty set of requested pieces.
+func VerifNewRequested() *Requested {
+	return &Requested{pieces: make(map[uint32]*RequestedPiece)}
+}
+
+// VerifSnapshot returns the entries of a set of requested pieces, sorted by index.
+func (rs *Requested) VerifSnapshot() []VerifRequestedPiece {
+	var out []VerifRequestedPiece
+	for i, r := range rs.pieces {
+		out = append(out, VerifRequestedPiece{i, append([]int8(nil), r.prio...), r.done != nil})
+	}
+	sort.Slice(out, func(i, j int) bool { return out[i].Index < out[j].Index })
+	return out
+}
